@@ -91,7 +91,7 @@ Proof.
   pose proof (child_row d cs Hrows _ _ _ _ _ Hcs' Eg2') as Hrow2.
   assert (Hprev : nd_prev_sibling nnd = l_prev (link_of nnd)) by reflexivity.
   rewrite Hrow2 in Hprev. unfold row_of in Hprev. cbn [l_prev] in Hprev.
-  rewrite prev_after_None, last_child_id_app_one in Hprev. rewrite Hprev.
+  rewrite prev_after_None, last_child_id_app_one in Hprev. cbn [bind]. rewrite Hprev.
   destruct (_ =? _); exact I.
 Qed.
 
